@@ -9,6 +9,7 @@ import (
 	"verif/mc/bind"
 	"verif/mc/core"
 	"verif/mc/env"
+	"verif/mc/gen"
 	"verif/mc/spec"
 )
 
@@ -19,7 +20,7 @@ func init() {
 		ID:    "C16",
 		Title: "Packet type dispatch follows the first byte and header flags are preserved",
 		Level: "exploration",
-		Rule: "complete enumeration of all 256 first bytes x the bodies valid for the selected type taken from the specification encoder (minimal, rich, remaining length 0 where the type allows, every short form; for PUBLISH the body matches the QoS bits of that first byte: packet identifier present for QoS 1/2, absent for 0 and for the reserved combination 3), and every frame of the valid corpus V (~2.7k frames, one per field shape) under every flag nibble that keeps its body valid; the 256 x bodies frames also arrive byte by byte with idle reads in between and after runs of 99, 100 and 250 idle reads (100 and more: a rejection is acceptable, another type is not); every frame is read through ten reader implementations (scripted, bufio 16/4096/pre-filled, own type with Peek/Discard, LimitedReader, own type with an unrelated Len() method, bytes.Buffer, bytes.Reader, strings.Reader). " +
+		Rule: "complete enumeration of all 256 first bytes x the bodies valid for the selected type taken from the specification encoder (minimal, rich, remaining length 0 where the type allows, every short form; for PUBLISH the body matches the QoS bits of that first byte: packet identifier present for QoS 1/2, absent for 0 and for the reserved combination 3), a frame of every remaining length 0..300 (and mined lengths) for every type, and every frame of the valid corpus V (~2.7k frames, one per field shape) under every flag nibble that keeps its body valid; the 256 x bodies frames also arrive byte by byte with idle reads in between and after runs of 99, 100 and 250 idle reads (100 and more: a rejection is acceptable, another type is not); every frame is read through ten reader implementations (scripted, bufio 16/4096/pre-filled, own type with Peek/Discard, LimitedReader, own type with an unrelated Len() method, bytes.Buffer, bytes.Reader, strings.Reader). " +
 			"Oracle: the dynamic type is the one selected by the upper nibble (0 yields Undefined whose Data() equals the body); a PUBLISH reports DUP, QoS and RETAIN of the lower nibble; for types 1-15 writing the decoded packet reproduces the same first byte. distinct_nontrivial = distinct (first byte, body) pairs.",
 		Assumptions: []string{"decoding must succeed for the body to be judged: bodies come from the valid-frame language"},
 		Run:         runC16,
@@ -193,6 +194,41 @@ func runC16(x *core.Ctx) {
 			}
 			x.Sample(fmt.Sprintf("type%d", fb>>4), 1, func() any { return hexOf(clipBytes(frame)) })
 			try(frame, fmt.Sprintf("type%d", fb>>4))
+		}
+	}
+	// every remaining length 0..300 (and the lengths mined from the tree)
+	// for every type: dispatch must not depend on what the length byte
+	// happens to be
+	for _, t := range allTypes {
+		if !x.Mine() {
+			continue
+		}
+		lens := []int{}
+		for n := 0; n <= 300; n++ {
+			lens = append(lens, n)
+		}
+		for _, n := range Mined.Lens {
+			if n > 300 && n <= 70000 {
+				lens = append(lens, n)
+			}
+		}
+		for _, n := range lens {
+			for _, rich := range []bool{false, true} {
+				base := minimalPacket(t)
+				if rich {
+					base = richPacket(t, false)
+				}
+				p := gen.WithRemainingLength(base, n)
+				if p == nil {
+					continue
+				}
+				b, _, err := spec.Encode(p, spec.Form{})
+				if err != nil {
+					continue
+				}
+				try(b, "remaining-lengths")
+				break
+			}
 		}
 	}
 	// every frame of the valid corpus V (one frame per field shape of every
